@@ -766,3 +766,44 @@ func checkDecoderParam(w *World, r *Report) {
 		r.Fail("decoderparam", r.MkKey("decoderparam", "cmap", "decoders"), "-", "fewer than three format decoders found in package cmap", nil)
 	}
 }
+
+// checkLookupRange: Subtable.Lookup takes a rune. A subtable keyed by 16-bit
+// codes has to refuse characters outside that range before it converts; an
+// unguarded uint16(r) makes U+10041 an alias of U+0041.
+func checkLookupRange(w *World, r *Report) {
+	r.Rule("lookuprange: in every Lookup method of package cmap a conversion of the rune parameter to a narrower integer type is dominated by a comparison of that parameter (a range test): characters outside the key range get glyph 0, not the glyph of the character with the same low bits")
+	n := 0
+	for _, fn := range w.LibFuncs() {
+		if fnPkgPath(fn) != modPath+"/cmap" || fn.Name() != "Lookup" || fn.Signature.Recv() == nil || len(fn.Params) != 2 {
+			continue
+		}
+		p := fn.Params[1]
+		for _, b := range fn.Blocks {
+			for _, in := range b.Instrs {
+				cv, ok := in.(*ssa.Convert)
+				if !ok || cv.X != ssa.Value(p) {
+					continue
+				}
+				if tb := typeBits(cv.Type()); tb == 0 || tb >= typeBits(p.Type()) {
+					continue
+				}
+				n++
+				key := r.MkKey("lookuprange", fnName(fn), "conversion "+cv.Type().String()+"(rune)")
+				guarded := false
+				for _, g := range guardsOf(b) {
+					if backSlice(g.cond)[p] {
+						guarded = true
+					}
+				}
+				if guarded {
+					r.OK("lookuprange", key, w.Pos(cv.Pos()), "behind a range test of the character")
+				} else {
+					r.Fail("lookuprange", key, w.Pos(cv.Pos()), "the character is converted to "+cv.Type().String()+" without a range test: a code point above the key range is looked up under its low bits and gets the glyph of another character instead of glyph 0", nil)
+				}
+			}
+		}
+	}
+	if n == 0 {
+		r.OK("lookuprange", r.MkKey("lookuprange", "cmap", "Lookup methods"), "-", "no Lookup method narrows its rune parameter")
+	}
+}
